@@ -4,6 +4,7 @@ import (
 	"context"
 	"fmt"
 	"os"
+	"os/exec"
 	"path/filepath"
 	"time"
 
@@ -33,6 +34,7 @@ type DirectedResult struct {
 	Merged       int            // merge introductions of the first forced merge
 	FailedMerges int            // merges that ended with an error
 	Reopen       map[string]any // what reopening after the run found
+	AtPurge      map[string]any // what opening a copy of the directory taken right after the purge found
 	Events       []Event
 }
 
@@ -266,6 +268,21 @@ func DirectedFailedMerge(base string, seed int64) (*DirectedResult, error) {
 	}
 	r.Sample("after-purge")
 	r.SetHolds(nil)
+	// "reopening at that moment": once the loops are idle again the directory is copied
+	// (what a kill at this instant leaves behind) and the copy is opened
+	if r.Quiesce(10 * time.Second) {
+		snap := filepath.Join(base, "at-purge")
+		if err := exec.Command("cp", "-r", dir, snap).Run(); err == nil {
+			rec, _, cidx := RecoveredRecord(snap, "crash", nil)
+			if cidx != nil {
+				if cont, err := ObserveContent(cidx, "e", "f"); err == nil {
+					rec["docs"], rec["seq"], rec["count"], rec["matchall"] = cont.Docs, cont.Seq, cont.Count, cont.MatchAll
+				}
+				_ = cidx.Close()
+			}
+			res.AtPurge = rec
+		}
+	}
 	if r.Settle(30 * time.Second) {
 		r.Sample("quiescent")
 	}
@@ -276,6 +293,10 @@ func DirectedFailedMerge(base string, seed int64) (*DirectedResult, error) {
 	// reopening at that moment must come up with the same content
 	rec, _, idx := RecoveredRecord(dir, "reopen", nil)
 	if idx != nil {
+		// this history uses ids beyond the default id space
+		if cont, err := ObserveContent(idx, "e", "f"); err == nil {
+			rec["docs"], rec["seq"], rec["count"], rec["matchall"] = cont.Docs, cont.Seq, cont.Count, cont.MatchAll
+		}
 		_ = idx.Close()
 	}
 	res.Reopen = rec
